@@ -21,6 +21,7 @@ SCOPE = {
                 'function, bound method, callable instance, partials fixing <=2 positionals and/or one keyword; calls: 0..4 '
                 'positionals x every subset (<=3) of the parameter names + one foreign name',
 }
+SCOPE = {t: SCOPE[t] + '; ' + SCOPE['reserved names'] for t in ('quick', 'thorough')}
 ASSUMPTIONS = ['bounded scope (see coverage.scope): not a proof', 'ground truth = actually calling a side-effect-free stub of the same shape '
                '(CPython\'s binder)', 'argument values are irrelevant to binding']
 
